@@ -297,10 +297,63 @@ def r04c(ctx, rep, rule="R04c"):
     rep.floor(rule, "registered builtins", len(cg.registry), 130)
 
 
+def r04e(ctx, rep, rule="R04e"):
+    facts, cg = ctx["facts"], ctx["cg"]
+    rep.rule(rule, "one call mechanism: a procedure is entered only by the CALL/TCALL instructions. The lambda component "
+             "of the instruction pointer (Vm.ip.0 / the whole ip) is written only in run_one, prepare_eval and "
+             "restore_continuation, and a return linkage (VCell::InstructionPointer / EnvironmentPointer) is constructed "
+             "for storing only in run_one. A builtin that enters a procedure itself pushes an ordinary call frame even "
+             "when it was reached by TCALL, so a tail call through it grows the stack.")
+    allowed_ip = {RUN_ONE, "marwood::vm::Vm::prepare_eval", CONT + "restore_continuation", "marwood::vm::Vm::new"}
+    n = 0
+    for p, f in sorted(facts.fns.items()):
+        if f.crate != "marwood" or f.impl_trait in DERIVE_TRAITS:
+            continue
+        vml = {i for i, t in enumerate(f.locals) if t == "&mut marwood::vm::Vm"}
+        if not vml:
+            continue
+        for bb, j, s in f.stmts():
+            l = s["lhs"]
+            if l["l"] in vml:
+                names = [e.get("n") for e in l["p"] if isinstance(e, dict) and "f" in e]
+                if names == ["ip"] or names == ["ip", "0"]:
+                    n += 1
+                    key = "%s|ip-write|%s" % (rule, f.short)
+                    if p in allowed_ip:
+                        rep.ok(rule, key, "%s writes the procedure component of ip (permitted)" % f.short, [s["loc"]])
+                    else:
+                        rep.fail(rule, key, "%s sets the instruction pointer to another procedure itself instead of handing "
+                                 "it back to the calling CALL/TCALL: the callee gets an ordinary frame even from a tail "
+                                 "call, so such calls grow the stack" % f.short, [s["loc"]])
+    rep.floor(rule, "writes of the procedure component of ip", n, 4)
+    k = 0
+    for p, f in sorted(facts.fns.items()):
+        if f.crate != "marwood" or f.impl_trait in DERIVE_TRAITS:
+            continue
+        for bb, j, s in f.stmts():
+            rv = s["rv"]
+            if rv["k"] == "agg" and rv.get("adt") == VCELL and rv.get("variant") in ("InstructionPointer", "EnvironmentPointer"):
+                from .C03 import forward_uses
+                uses = forward_uses(f, s["lhs"]["l"]) if not s["lhs"]["p"] else [("store", s, None)]
+                storing = [u for u in uses if u[0] == "call" and callee(u[1]) == STACK + "push" or u[0] == "store"]
+                if not storing:
+                    continue
+                k += 1
+                key = "%s|linkage|%s|%s" % (rule, f.short, rv["variant"])
+                if p == RUN_ONE:
+                    rep.ok(rule, key, "return linkage %s is pushed by run_one" % rv["variant"], [s["loc"]])
+                else:
+                    rep.fail(rule, key, "%s pushes a return linkage (%s) itself: only the CALL instruction may create a "
+                             "frame; here a frame is created even when the builtin was reached by TCALL" % (
+                                 f.short, rv["variant"]), [s["loc"]])
+    rep.floor(rule, "return linkage constructions that are stored", k, 2)
+
+
 def run(ctx, rep):
     r04a(ctx, rep)
     r04b(ctx, rep)
     r04c(ctx, rep)
+    r04e(ctx, rep)
     from . import prelude
     prelude.r04d(ctx, rep)
     rep.not_decided += ["stack-pointer arithmetic being off by a constant inside a bp-relative handler",
